@@ -48,7 +48,7 @@ Section C10.
     (* I4: a finished candidate knows where its block ends, unless it is already behind the parser *)
     c_unord : Forall (fun u => u_inq u = true -> u_complete u = true ->
                         u_end u = blk_end O (fst (u_base u)) \/ d_off (u_end u) < x_head_offs st) (x_unords st);
-    c_noinq : x_parsing_done st = true -> Forall (fun u => u_inq u = false) (x_unords st);
+    c_noinq : x_failed st = None -> x_parsing_done st = true -> Forall (fun u => u_inq u = false) (x_unords st);
     (* I3: what a job carries is a function of its base *)
     c_emit : Forall ejob_ok (x_emit_q st);
     c_conts : Forall cont_ok (x_running st);
@@ -163,6 +163,7 @@ Section C10.
     assert (PN := cv_pn0).
     constructor; rewrite ?AJ, ?cv_un0, ?cv_nx0, ?cv_hd0, ?cv_dn0, ?cv_em0, ?cv_ro0; auto.
     rewrite cv_wr0, cv_fl0, cv_or0, cv_par0, PN. auto.
+    rewrite cv_fl0. auto.
   Qed.
 
   Ltac cview_tac := constructor; unfold pnext, nparse; xs; autorewrite with xf; xs; auto.
@@ -504,8 +505,8 @@ Section C10.
       destruct (ST u Hu) as (u0 & H0 & (_ & _ & _ & S4 & _)). rewrite S4. auto.
   Qed.
 
-  Lemma cparts_of st : cinv st -> cparts st.
-  Proof. intros []. repeat split; auto. Qed.
+  Lemma cparts_of st : x_failed st = None -> cinv st -> cparts st.
+  Proof. intros NF []. repeat split; auto. Qed.
 
   (* the remaining parts: what is written, the emit/reorder queues and the running set *)
   Record cview0 (st st' : xstate) : Prop := mkcview0 {
@@ -530,7 +531,7 @@ Section C10.
     cinv s1 /\ (jm (x_unords s1) j = true -> fst (r_base j) = x_next s1).
   Proof.
     intros D [Cs Cm Cu Cn Ce Cc Cr]. destruct (del_run_spec _ _ _ D) as (l1 & l2 & E & ->).
-    unfold all_jobs in *. rewrite E in *. rewrite !run_jobs_app, run_jobs_cons in Cm. simpl cjobs in Cm.
+    unfold all_jobs in *. rewrite E in *. rewrite !run_jobs_app, run_jobs_cons in Cm. simpl cjobs in Cm. change ([j] ++ run_jobs l2) with (j :: run_jobs l2) in Cm.
     rewrite !Forall_app in Cm. destruct Cm as (A1 & A2 & A3). inversion A3 as [|? ? Aj A4]; subst.
     apply Forall_del in Cc. destruct Cc as [Cc _].
     split; [|xs; exact Aj].
@@ -554,5 +555,349 @@ Section C10.
       subst u. simpl in *. right. apply HR; auto. congruence.
     - intro K. specialize (Cn K). apply Forall_forall. intros u Hu. rewrite Forall_forall in Cn.
       destruct (drop_link_stems _ _ _ Hu) as (u0 & H0 & (_ & _ & _ & S4 & _)). rewrite S4. auto.
+  Qed.
+
+  Lemma cretr1_master cfg j lk rv cur s2 st' :
+    r_link j = lk -> c_requeue_retr_checks_head cfg = true -> jfacts j s2 -> cinv s2 ->
+    jm (x_unords s2) j = true -> fst (r_base j) = x_next s2 -> x_parsing_done s2 = false ->
+    d_off (r_cur j) <= d_off cur ->
+    (rv <> MORE -> rv = blk_status O (fst (r_base j)) /\ cur = blk_end O (fst (r_base j))) ->
+    (let st := advance cfg cur s2 in
+     if rv =? MORE then
+       if c_requeue_retr_checks_head cfg && (d_off cur <? x_head_offs st)
+       then Some (give_unit (if c_stale_drops_link cfg then set_unords (drop_link lk (x_unords st)) st else st))
+       else Some (set_retr_q (mkrjob (r_base j) cur lk :: x_retr_q st) st)
+     else Some (add_run (CRetr2 (mkejob (r_base j) rv (d_off cur)))
+                  (match lk with
+                   | Some id => set_unords (del_unord id (x_unords (set_parse_token true st))) (set_parse_token true st)
+                   | None => set_parse_token true st
+                   end))) = Some st' ->
+    cinv st'.
+  Proof.
+    intros ELK CR (I2 & J2 & L2 & B2 & M2) C2 JM BN PD Hoff EV H. subst lk. rewrite JM in B2. simpl in B2.
+    assert (M0 : masters s2 = 0%nat) by lia. assert (N0 : nparse s2 = 0%nat) by lia.
+    assert (T0 : x_parse_token s2 = false) by (destruct (x_parse_token s2); simpl in B2; auto; exfalso; lia).
+    specialize (M2 JM). assert (HD : x_head_offs s2 <= d_off cur) by lia.
+    destruct (inv_advance cfg cur s2 I2 M0 HD) as (I3 & M3 & H3a & H3b & ST & RP).
+    pose proof (cparts_advance cfg cur s2 I2 M0 HD (cparts_of _ C2)) as P3.
+    assert (V3 : cview0 s2 (advance cfg cur s2)).
+    { constructor; unfold pnext, nparse in *; autorewrite with xf; auto. rewrite T0, N0. simpl. reflexivity. }
+    assert (PB3 : x_parser_bs (advance cfg cur s2) = cur) by (unfold advance; autorewrite with xf; xs; reflexivity).
+    assert (E3 : x_parse_token (advance cfg cur s2) = false /\ nparse (advance cfg cur s2) = 0%nat /\ x_next (advance cfg cur s2) = x_next s2
+                 /\ x_running (advance cfg cur s2) = x_running s2)
+      by (unfold nparse in *; autorewrite with xf; auto).
+    cbv zeta in H. set (st := advance cfg cur s2) in *. destruct E3 as (T3 & N3 & NX3 & RU3). clearbody st.
+    assert (JMj : forall us', jm us' j = jm us' (mkrjob (r_base j) cur (r_link j))) by reflexivity.
+    destruct (rv =? MORE) eqn:RV.
+    - rewrite CR in H. replace (d_off cur <? x_head_offs st) with false in H by lia. cbn [andb] in H.
+      inversion H; subst st'. clear H.
+      eapply cinv_parts; [exact C2| |].
+      + eapply cview0_trans; [exact V3|]. cview0_tac.
+      + destruct P3 as (Pm & Pu & Pn). split; [|split]; unfold all_jobs in *; xs; auto.
+        simpl. constructor; auto. simpl. intro K. rewrite NX3. rewrite <- BN. reflexivity.
+    - apply N.eqb_neq in RV. destruct (EV RV) as [ES EC].
+      set (sf := match r_link j with
+                 | Some id => set_unords (del_unord id (x_unords (set_parse_token true st))) (set_parse_token true st)
+                 | None => set_parse_token true st end) in *.
+      inversion H; subst st'. clear H.
+      assert (PN : d_bit cur = pnext s2).
+      { unfold pnext. rewrite T0, N0. simpl. rewrite <- BN, <- EC. reflexivity. }
+      assert (V4 : cview0 s2 sf).
+      { eapply cview0_trans; [exact V3|]. subst sf.
+        destruct (r_link j); constructor; unfold pnext, nparse in *; xs; auto; rewrite PB3; simpl; rewrite T3, N3; simpl;
+          rewrite NX3; unfold pnext in PN; rewrite T0, N0 in PN; simpl in PN; auto. }
+      assert (P4 : cparts sf).
+      { destruct P3 as (Pm & Pu & Pn). subst sf. destruct (r_link j) as [id|]; [|split; [|split]; unfold all_jobs in *; xs; auto].
+        split; [|split]; unfold all_jobs in *; xs.
+        - eapply Forall_impl; [|exact Pm]. simpl. intros x K J. apply K. eapply jm_stems; eauto.
+          + unfold del_unord. intros u Hu. apply filter_In in Hu. exists u. split; [tauto|apply stems_refl].
+          + apply I3.
+        - unfold del_unord. apply Forall_forall. intros u Hu. apply filter_In in Hu. rewrite Forall_forall in Pu. apply Pu. tauto.
+        - intro K. specialize (Pn K). unfold del_unord. apply Forall_forall. intros u Hu. apply filter_In in Hu.
+          rewrite Forall_forall in Pn. apply Pn. tauto. }
+      clearbody sf.
+      eapply cinv_parts; [exact C2| |].
+      + eapply cview0_trans; [exact V4|]. unfold add_run. constructor; unfold pnext, nparse; xs; auto.
+        all: try (intro F; constructor; auto; simpl; unfold ejob_ok; simpl; exact ES).
+      + destruct P4 as (Pm & Pu & Pn). split; [|split]; unfold all_jobs, add_run in *; xs; auto.
+  Qed.
+
+  Lemma jm_upd_raise id f us x :
+    (forall u, u_id (f u) = u_id u /\ u_legit (f u) = u_legit u) -> Forall unord_ok us ->
+    jm (upd_unord id f us) x = true -> jm us x = true.
+  Proof.
+    intros HF HO. unfold jm. destruct (r_link x) as [id2|]; auto. unfold upd_unord. rewrite existsb_map, !existsb_exists.
+    intros (u & Hu & E). exists u. split; auto. destruct (u_id u =? id); auto.
+    destruct (HF u) as [F1 F2]. rewrite F1, F2 in E. bool_hyps.
+    rewrite Forall_forall in HO. destruct (HO u Hu) as (O1 & O2 & _).
+    destruct (u_inq u) eqn:Q.
+    - destruct (O1 eq_refl) as (_ & _ & L). congruence.
+    - rewrite (O2 eq_refl). match goal with A : (u_id u =? id2) = true |- _ => rewrite A end.
+      match goal with A : u_legit u = true |- _ => rewrite A end. reflexivity.
+  Qed.
+
+  Lemma cretr1_spec cfg j id rv cur s2 st' :
+    c_requeue_retr_checks_head cfg = true -> jfacts j s2 -> cinv s2 -> r_link j = Some id ->
+    (jm (x_unords s2) j = true -> fst (r_base j) = x_next s2) ->
+    (forall u, In u (x_unords s2) -> u_id u = id -> u_complete u = false) ->
+    dbs_ok cur = true -> d_bit (r_cur j) <= d_bit cur ->
+    (rv <> MORE -> rv = blk_status O (fst (r_base j)) /\ cur = blk_end O (fst (r_base j))) ->
+    (let st := set_unords (upd_unord id (u_set_end cur) (x_unords s2)) s2 in
+     if rv =? MORE then
+       if c_requeue_retr_checks_head cfg && (d_off cur <? x_head_offs st)
+       then Some (give_unit (if c_stale_drops_link cfg then set_unords (drop_link (Some id) (x_unords st)) st else st))
+       else Some (set_retr_q (mkrjob (r_base j) cur (Some id) :: x_retr_q st) st)
+     else Some (add_run (CRetr2 (mkejob (r_base j) rv (d_off cur)))
+                  (set_unords (upd_unord id (fun u => u_set_complete (u_set_end cur u)) (x_unords st)) st))) = Some st' ->
+    cinv st'.
+  Proof.
+    intros CR (I2 & J2 & L2 & B2 & M2) C2 EL BN INC Hok Hbit EV H.
+    pose proof (L2 id EL) as Z2. destruct J2 as (J1 & J2' & J3 & J4 & J5).
+    assert (UB : forall u, In u (x_unords s2) -> u_id u = id -> u_base u = r_base j) by (intros u Hu Hid; apply (J5 id u EL Hu Hid)).
+    destruct (cparts_of _ C2) as (Pm & Pu & Pn).
+    (* the store after `end_pos = curr_pos` *)
+    set (us1 := upd_unord id (u_set_end cur) (x_unords s2)).
+    assert (P1 : cparts (set_unords us1 s2)).
+    { split; [|split]; unfold all_jobs in *; xs.
+      - eapply Forall_impl; [|exact Pm]. simpl. intros x K J. apply K. subst us1.
+        rewrite jm_upd_same in J by (intro u; repeat split; reflexivity). exact J.
+      - subst us1. unfold upd_unord. apply Forall_forall. intros u Hu Q C. apply in_map_iff in Hu. destruct Hu as (u0 & <- & H0).
+        rewrite Forall_forall in Pu. destruct (u_id u0 =? id) eqn:K; [|auto].
+        apply N.eqb_eq in K. simpl in C. rewrite (INC u0 H0 K) in C. discriminate.
+      - intro K. specialize (Pn K). subst us1. unfold upd_unord. apply Forall_forall. intros u Hu. apply in_map_iff in Hu.
+        destruct Hu as (u0 & <- & H0). rewrite Forall_forall in Pn. destruct (u_id u0 =? id); simpl; auto. }
+    assert (I1 : inv (set_unords us1 s2)).
+    { apply (inv_upd_spec id (u_set_end cur) s2 I2 Z2).
+      - intro u. split; reflexivity.
+      - intros u Hu Hid. destruct I2 as [_ _ _ _ Iu _ _ _ _ _ _ _ _]. rewrite Forall_forall in Iu. destruct (Iu u Hu) as (O1 & O2 & O3).
+        unfold unord_ok, u_set_end; simpl. split; [|split; auto]. intro Q. destruct (O1 Q) as (_ & _ & L).
+        repeat split; auto. rewrite (UB u Hu Hid). lia. }
+    cbv zeta in H. fold us1 in H. set (st := set_unords us1 s2) in *.
+    assert (V1 : cview0 s2 st) by (subst st; cview0_tac).
+    assert (HDs : x_head_offs st = x_head_offs s2) by (subst st; xs; auto).
+    assert (USs : x_unords st = us1) by (subst st; xs; auto).
+    assert (AJs : all_jobs st = all_jobs s2) by (subst st; unfold all_jobs; xs; auto).
+    assert (NXs : x_next st = x_next s2) by (subst st; xs; auto).
+    assert (JMs : jm (x_unords st) j = jm (x_unords s2) j).
+    { rewrite USs. subst us1. apply jm_upd_same. intro u. repeat split; reflexivity. }
+    clearbody st.
+    destruct (rv =? MORE) eqn:RV.
+    - rewrite CR in H. cbn [andb] in H. destruct (d_off cur <? x_head_offs st) eqn:SL.
+      + inversion H; subst st'. clear H. eapply cinv_parts; [exact C2| |].
+        * eapply cview0_trans; [exact V1|]. destruct (c_stale_drops_link cfg); cview0_tac.
+        * assert (PG : forall s, cparts s -> cparts (give_unit s)).
+          { intros s0 (A & B & C). split; [|split]; unfold all_jobs, give_unit in *; xs; auto. }
+          apply PG. destruct (c_stale_drops_link cfg); auto.
+          refine (cparts_drop_link (Some id) st I1 P1 _).
+          intros u0 H0 L C Q. inversion L; subst id. rewrite USs in H0. subst us1. unfold upd_unord in H0.
+          apply in_map_iff in H0. destruct H0 as (u1 & E1 & H1). destruct (u_id u1 =? u_id u0) eqn:K.
+          -- subst u0. simpl. lia.
+          -- subst u0. rewrite N.eqb_refl in K. discriminate.
+      + inversion H; subst st'. clear H. eapply cinv_parts; [exact C2| |].
+        * eapply cview0_trans; [exact V1|]. cview0_tac.
+        * destruct P1 as (A & B & C). split; [|split]; unfold all_jobs in *; xs; auto.
+          simpl. constructor; [|exact A]. simpl. intro K. rewrite NXs. apply BN. rewrite <- JMs.
+          unfold jm in K |- *. simpl in K. rewrite EL. exact K.
+    - apply N.eqb_neq in RV. destruct (EV RV) as [ES EC]. inversion H; subst st'. clear H.
+      eapply cinv_parts; [exact C2| |].
+      + eapply cview0_trans; [exact V1|]. unfold add_run. constructor; unfold pnext, nparse; xs; auto.
+        all: try (intro F; constructor; auto; simpl; unfold ejob_ok; simpl; exact ES).
+      + destruct P1 as (A & B & C). split; [|split]; unfold all_jobs, add_run in *; xs.
+        * rewrite USs in *. eapply Forall_impl; [|exact A]. simpl. intros x K J. apply K.
+          eapply jm_upd_raise; [| |exact J]; [intro u; split; reflexivity|]. rewrite <- USs. apply I1.
+        * rewrite USs in *. unfold upd_unord at 1. apply Forall_forall. intros u Hu Q Cc. apply in_map_iff in Hu.
+          destruct Hu as (u0 & <- & H0). rewrite Forall_forall in B. destruct (u_id u0 =? id) eqn:K; [|first [apply B; auto; fail | rewrite HDs; apply B; auto; fail | rewrite <- HDs; apply B; auto; fail | rewrite HDs in B; apply B; auto; fail | rewrite <- HDs in B; apply B; auto]].
+          left. simpl. subst us1. unfold upd_unord in H0. apply in_map_iff in H0. destruct H0 as (u1 & E1 & H1).
+          assert (u_base u0 = r_base j).
+          { destruct (u_id u1 =? id) eqn:K1; subst u0; simpl in *; apply UB; auto; apply N.eqb_eq; auto. }
+          rewrite H. exact EC.
+        * rewrite USs in *. intro K. specialize (C K). unfold upd_unord at 1. apply Forall_forall. intros u Hu. apply in_map_iff in Hu.
+          destruct Hu as (u0 & <- & H0). rewrite Forall_forall in C. destruct (u_id u0 =? id); simpl; auto.
+  Qed.
+
+  Lemma cparts_give_unit s : cparts s -> cparts (give_unit s).
+  Proof. intros (A & B & C). split; [|split]; unfold all_jobs, give_unit in *; xs; auto. Qed.
+
+  Lemma cinv_retr1 cfg j att rv cur st st' :
+    cfg_safe cfg -> inv st -> cinv st -> ev_ok O st (EvRetr1 j att rv cur) ->
+    retr1 cfg j att rv cur st = Some st' -> cinv st'.
+  Proof.
+    intros (CS & CJ & CR) I C EV H. unfold retr1 in H. simpl in EV.
+    destruct (del_run (CRetr j att) st) as [s1|] eqn:D; [|discriminate].
+    assert (F1 : jfacts j s1) by (apply (inv_del_retr _ _ _ _ D I)).
+    destruct (cinv_del_retr _ _ _ _ D C) as (C1 & BN1). clear I C D.
+    set (aend := att_end att s1) in *. clearbody aend.
+    match type of H with (if ?c then _ else _) = _ => destruct c eqn:CC; [|discriminate] end.
+    assert (F2 : jfacts j (detach att s1)) by (eapply jfacts_view; [apply view_detach|auto]).
+    assert (C2 : cinv (detach att s1)) by (eapply cinv_cview; [apply cview_detach|auto]).
+    assert (BN2 : jm (x_unords (detach att s1)) j = true -> fst (r_base j) = x_next (detach att s1)) by (autorewrite with xf; exact BN1).
+    clear F1 C1 BN1. set (s2 := detach att s1) in *. clearbody s2. clear s1.
+    bool_hyps.
+    assert (Hok : dbs_ok cur = true) by assumption.
+    assert (Hbit : d_bit (r_cur j) <= d_bit cur) by (apply N.leb_le; assumption).
+    assert (Hoff : d_off (r_cur j) <= d_off cur) by (apply N.leb_le; assumption).
+    assert (F2' := F2). destruct F2' as (I2 & J2 & L2 & B2 & M2).
+    assert (V0 : forall us', cview0 s2 (give_unit (set_unords us' s2))) by (intro; cview0_tac).
+    destruct (x_parsing_done s2) eqn:PD.
+    { inversion H; subst. eapply cinv_parts; [exact C2| |].
+      - destruct (c_retr_done_drops_link cfg); [apply V0|cview0_tac].
+      - apply cparts_give_unit. destruct (c_retr_done_drops_link cfg); [|apply cparts_of; auto].
+        apply cparts_drop_link; auto; [apply cparts_of; auto|].
+        intros u0 Hin0 _ _ Q. exfalso. destruct C2 as [_ _ _ Cn _ _ _]. specialize (Cn PD). rewrite Forall_forall in Cn.
+        rewrite (Cn u0 Hin0) in Q. discriminate. }
+    destruct (link_state (r_link j) s2) as [u|] eqn:LS.
+    - destruct (link_state_spec _ _ _ LS) as (id & EL & Hu & Hid). rewrite EL in H. cbn [andb negb orb] in H.
+      destruct (u_complete u) eqn:UC; cbn [andb negb orb] in H.
+      + destruct (u_legit u) eqn:UL; cbn [andb negb orb] in H.
+        * assert (JM : jm (x_unords s2) j = true) by (eapply jm_of_link_state; eauto).
+          eapply (cretr1_master cfg j (Some id) rv cur s2 st' EL CR F2 C2 JM (BN2 JM) PD Hoff EV). exact H.
+        * inversion H; subst. eapply cinv_parts; [exact C2| |].
+          -- destruct (c_retr_abort_drops_link cfg); [apply (V0 (drop_link (Some (u_id u)) (x_unords s2)))|cview0_tac].
+          -- apply cparts_give_unit. destruct (c_retr_abort_drops_link cfg); [|apply cparts_of; auto].
+             refine (cparts_drop_link (Some (u_id u)) s2 I2 (cparts_of _ C2) _).
+             intros u0 Hin0 L C0 _. exfalso. inversion L.
+             assert (u0 = u) by (apply (nodup_id_unique (x_unords s2)); auto; apply I2). congruence.
+      + eapply (cretr1_spec cfg j id rv cur s2 st' CR F2 C2 EL BN2); try exact H; auto.
+        intros u0 Hin0 E0. assert (u0 = u) by (apply (nodup_id_unique (x_unords s2)); auto; [apply I2|congruence]). congruence.
+    - assert (EL : (exists id, r_link j = Some id) \/ r_link j = None) by (destruct (r_link j); eauto).
+      destruct EL as [[id EL]|EL]; rewrite EL in H; cbn [andb negb orb] in H.
+      + eapply (cretr1_spec cfg j id rv cur s2 st' CR F2 C2 EL BN2); try exact H; auto.
+        intros u0 Hin0 E0. exfalso. unfold link_state in LS. rewrite EL in LS. eapply get_unord_none; eauto.
+      + assert (JM : jm (x_unords s2) j = true) by (unfold jm; rewrite EL; reflexivity).
+        eapply (cretr1_master cfg j None rv cur s2 st' EL CR F2 C2 JM (BN2 JM) PD Hoff EV). exact H.
+  Qed.
+
+  (* ---- the parser ---------------------------------------------------------------------------- *)
+  Definition CSq (p : N) (s : xstate) : Prop :=
+    forall L R, SeqDec O 0 0 L R -> exists l', L = x_written s ++ l' /\
+      match x_failed s with
+      | None => Rest (x_order_q s) (x_parsing_done s) (x_par s) p l' R
+      | Some _ => R = false
+      end.
+
+  Lemma CSq_ext p s s' : x_written s' = x_written s -> x_failed s' = x_failed s -> x_order_q s' = x_order_q s ->
+    x_parsing_done s' = x_parsing_done s -> x_par s' = x_par s -> CSq p s -> CSq p s'.
+  Proof. unfold CSq. intros -> -> -> -> ->. auto. Qed.
+
+  Lemma Rest_done_any q ps p ps' p' l r : Rest q true ps p l r -> Rest q true ps' p' l r.
+  Proof.
+    intro H. remember true as d. induction H; subst; try discriminate.
+    - constructor.
+    - eapply Rest_ok; eauto.
+    - eapply Rest_fail; eauto.
+  Qed.
+
+  Lemma no_masters_jm s j : masters s = 0%nat -> In j (all_jobs s) -> jm (x_unords s) j = false.
+  Proof.
+    unfold masters. intros M Hj. destruct (jm (x_unords s) j) eqn:E; auto.
+    assert (In j (filter (jm (x_unords s)) (all_jobs s))) by (apply filter_In; auto).
+    destruct (filter (jm (x_unords s)) (all_jobs s)); [contradiction|discriminate].
+  Qed.
+
+  Lemma cparts_detached s us' :
+    (forall u, In u us' -> exists u0, In u0 (x_unords s) /\ (u = u0 \/ (u_inq u0 = true /\ u = u_detach false u0))) ->
+    cparts s -> cparts (set_unords us' s).
+  Proof.
+    intros ST (Cm & Cu & Cn). split; [|split]; unfold all_jobs in *; xs.
+    - eapply Forall_impl; [|exact Cm]. simpl. intros j K J. apply K. revert J. unfold jm. destruct (r_link j) as [id|]; auto.
+      rewrite !existsb_exists. intros (u & Hu & E). destruct (ST u Hu) as (u0 & H0 & [->|[_ ->]]); [exists u0; auto|].
+      simpl in E. rewrite andb_false_r in E. discriminate.
+    - apply Forall_forall. intros u Hu Q C. rewrite Forall_forall in Cu.
+      destruct (ST u Hu) as (u0 & H0 & [->|[_ ->]]); auto. simpl in Q. discriminate.
+    - intro K. specialize (Cn K). apply Forall_forall. intros u Hu. rewrite Forall_forall in Cn.
+      destruct (ST u Hu) as (u0 & H0 & [->|[_ ->]]); auto.
+  Qed.
+
+  Lemma cinv_build st' p :
+    CSq p st' -> pnext st' = p -> cparts st' ->
+    Forall ejob_ok (x_emit_q st') -> Forall cont_ok (x_running st') -> Forall oblk_ok (x_reord_q st') -> cinv st'.
+  Proof. intros Cs PN (A & B & C) E K R. constructor; auto. rewrite PN. exact Cs. Qed.
+
+  Lemma cparse_ok cfg lv crc s :
+    inv s -> masters s = 0%nat -> nparse s = 0%nat -> x_parse_token s = false -> x_parsing_done s = false ->
+    dbs_norm (x_parser_bs s) = true -> x_next s = d_bit (x_parser_bs s) -> cparts s ->
+    Forall ejob_ok (x_emit_q s) -> Forall cont_ok (x_running s) -> Forall oblk_ok (x_reord_q s) ->
+    CSq (d_bit (blk_end O (d_bit (x_parser_bs s)))) (set_order_q (x_order_q s ++ [mkhead (d_pos (x_parser_bs s)) lv crc]) s) ->
+    cinv (parse_ok cfg lv crc s).
+  Proof.
+    intros I M0 N0 T0 PD NB NX P0 Ce Cc Cr CS. unfold parse_ok.
+    set (p := d_pos (x_parser_bs s)) in *.
+    set (s1 := set_order_q (x_order_q s ++ [mkhead p lv crc]) s) in *.
+    assert (V1 : view_eq s s1) by (subst s1; view_tac).
+    assert (I1 : inv s1) by (eapply inv_view; eauto).
+    assert (E1 : masters s1 = 0%nat /\ nparse s1 = 0%nat /\ x_parse_token s1 = false /\ x_parsing_done s1 = false /\
+                 x_parser_bs s1 = x_parser_bs s /\ x_next s1 = x_next s /\ x_emit_q s1 = x_emit_q s /\ x_running s1 = x_running s /\
+                 x_reord_q s1 = x_reord_q s)
+      by (subst s1; unfold masters, all_jobs, nparse in *; xs; auto 10).
+    assert (P1 : cparts s1) by (destruct P0 as (A & B & C); subst s1; split; [|split]; unfold all_jobs in *; xs; auto).
+    clearbody s1. clear V1 I M0 N0 T0 PD P0. destruct E1 as (M1 & N1 & T1 & PD1 & PB1 & NX1 & EQ1 & RU1 & RO1).
+    set (s2 := set_unords (discard_below p (x_unords s1)) s1).
+    destruct (inv_detached s1 (discard_below p (x_unords s1))) as (I2 & M2); auto.
+    { apply discard_below_spec. } { apply nodup_discard. apply I1. }
+    assert (P2 : cparts s2) by (apply cparts_detached; auto; apply discard_below_spec).
+    fold s2 in I2, M2.
+    assert (E2 : nparse s2 = 0%nat /\ x_parse_token s2 = false /\ x_parsing_done s2 = false /\ x_parser_bs s2 = x_parser_bs s /\
+                 x_next s2 = x_next s /\ x_emit_q s2 = x_emit_q s /\ x_running s2 = x_running s /\ x_reord_q s2 = x_reord_q s)
+      by (subst s2; unfold nparse in *; xs; auto 10).
+    assert (CS2 : CSq (d_bit (blk_end O (d_bit (x_parser_bs s)))) s2) by (eapply CSq_ext; [| | | | |exact CS]; subst s2; xs; auto).
+    destruct E2 as (N2 & T2 & PD2 & PB2 & NX2 & EQ2 & RU2 & RO2). clearbody s2. clear I1 P1 CS.
+    assert (M2' : masters s2 = 0%nat) by lia. clear M2 M1.
+    assert (FN : x_next s2 = fst p) by (rewrite NX2, NX; reflexivity).
+    assert (NEW : cinv (set_retr_q (mkrjob p (x_parser_bs s2) None :: x_retr_q s2) s2)).
+    { eapply cinv_build; [| | |xs; rewrite EQ2; auto|xs; rewrite RU2; auto|xs; rewrite RO2; auto].
+      - eapply CSq_ext; [| | | | |exact CS2]; xs; auto.
+      - unfold pnext, nparse in *. xs. rewrite T2, N2. simpl. rewrite NX2, NX. reflexivity.
+      - destruct P2 as (A & B & C). split; [|split]; unfold all_jobs in *; xs; auto.
+        simpl. constructor; auto; simpl; intros _; auto. }
+    destruct (qmin u_base pos_lt (unord_q s2)) as [u|] eqn:Q; [|exact NEW].
+    destruct (pos_eq (u_base u) p) eqn:PE; [|exact NEW]. clear NEW.
+    apply pos_eq_spec in PE. apply qmin_In in Q. unfold unord_q in Q. apply filter_In in Q. destruct Q as [Hu Qi].
+    assert (UO : unord_ok u) by (destruct I2 as [_ _ _ _ Iu _ _ _ _ _ _ _ _]; rewrite Forall_forall in Iu; auto).
+    destruct UO as (O1 & O2 & O3). destruct (O1 Qi) as (Oe & Ob & Ol).
+    assert (HD : x_head_offs s2 <= d_off (u_end u)).
+    { assert (x_head_offs s2 <= d_off (x_parser_bs s2)) by (apply I2; auto).
+      rewrite PE in Ob. subst p. unfold d_pos in Ob. simpl in Ob. rewrite PB2 in *. unfold dbs_ok, dbs_norm in *. lia. }
+    destruct (inv_advance cfg (u_end u) s2 I2 M2' HD) as (I3 & M3 & H3a & H3b & ST & RP).
+    pose proof (cparts_advance cfg (u_end u) s2 I2 M2' HD P2) as P3.
+    assert (RJ : forall j, In j (all_jobs s2) -> links (u_id u) j = true -> u_base u = r_base j).
+    { intros j Hj L. destruct I2 as [_ _ _ _ _ _ Ij _ _ _ _ _ _]. rewrite Forall_forall in Ij.
+      destruct (Ij j Hj) as (_ & _ & _ & _ & J5).
+      unfold links in L. apply optN_eqb_eq in L. destruct (J5 _ u L Hu eq_refl) as [B _]. auto. }
+    assert (UE : u_complete u = true -> u_end u = blk_end O (fst p)).
+    { intro UC. destruct P2 as (_ & Pu & _). rewrite Forall_forall in Pu. destruct (Pu u Hu Qi UC) as [A|A]; [rewrite A, PE; reflexivity|lia]. }
+    assert (PB3 : x_parser_bs (advance cfg (u_end u) s2) = u_end u) by (unfold advance; autorewrite with xf; xs; reflexivity).
+    assert (AJ3 : forall j, In j (all_jobs (advance cfg (u_end u) s2)) -> In j (all_jobs s2)).
+    { intros j Hj. unfold all_jobs in *. autorewrite with xf in Hj. apply in_app_or in Hj. apply in_or_app. destruct Hj as [Hj|Hj]; auto. left.
+      assert (RP' := RP (fun x => In x (x_retr_q s2)) ltac:(apply Forall_forall; auto)). rewrite Forall_forall in RP'. apply RP'; auto. }
+    assert (E3 : nparse (advance cfg (u_end u) s2) = 0%nat /\ x_parse_token (advance cfg (u_end u) s2) = false /\
+                 x_next (advance cfg (u_end u) s2) = x_next s /\ x_emit_q (advance cfg (u_end u) s2) = x_emit_q s /\
+                 x_running (advance cfg (u_end u) s2) = x_running s /\ x_reord_q (advance cfg (u_end u) s2) = x_reord_q s)
+      by (unfold nparse in *; autorewrite with xf; auto 10).
+    assert (CS3 : CSq (d_bit (blk_end O (d_bit (x_parser_bs s)))) (advance cfg (u_end u) s2))
+      by (eapply CSq_ext; [| | | | |exact CS2]; autorewrite with xf; auto).
+    set (s3 := advance cfg (u_end u) s2) in *. destruct E3 as (N3 & T3 & NX3 & EQ3 & RU3 & RO3). clearbody s3.
+    destruct (u_complete u) eqn:UC.
+    - specialize (UE eq_refl).
+      eapply cinv_build; [| | |unfold give_unit; xs; rewrite EQ3; auto|unfold give_unit; xs; rewrite RU3; auto|unfold give_unit; xs; rewrite RO3; auto].
+      + eapply CSq_ext; [| | | | |exact CS3]; unfold give_unit; xs; auto.
+      + unfold pnext, give_unit. xs. simpl. rewrite PB3, UE. subst p. reflexivity.
+      + apply cparts_give_unit. destruct P3 as (A & B & C). split; [|split]; unfold all_jobs in *; xs.
+        * eapply Forall_impl; [|exact A]. simpl. intros x K J. apply K. eapply jm_stems; [| |exact J].
+          -- unfold del_unord. intros v Hv. apply filter_In in Hv. exists v. split; [tauto|apply stems_refl].
+          -- apply I3.
+        * unfold del_unord. apply Forall_forall. intros v Hv. apply filter_In in Hv. rewrite Forall_forall in B. apply B. tauto.
+        * intro K. specialize (C K). unfold del_unord. apply Forall_forall. intros v Hv. apply filter_In in Hv.
+          rewrite Forall_forall in C. apply C. tauto.
+    - eapply cinv_build; [| | |unfold give_unit; xs; rewrite EQ3; auto|unfold give_unit; xs; rewrite RU3; auto|unfold give_unit; xs; rewrite RO3; auto].
+      + eapply CSq_ext; [| | | | |exact CS3]; unfold give_unit; xs; auto.
+      + unfold pnext, nparse, give_unit in *. xs. rewrite T3, N3. simpl. rewrite NX3, NX. reflexivity.
+      + apply cparts_give_unit. destruct P3 as (A & B & C). split; [|split]; unfold all_jobs in *; xs.
+        * apply Forall_forall. intros x Hx J. destruct (jm_detach _ _ _ J) as [J1|J1].
+          -- exfalso. rewrite (no_masters_jm s3 x M3) in J1; [discriminate|exact Hx].
+          -- rewrite NX3, NX. rewrite <- (RJ x (AJ3 x Hx) J1). rewrite PE. subst p. reflexivity.
+        * unfold upd_unord. apply Forall_forall. intros v Hv Qv Cv. apply in_map_iff in Hv. destruct Hv as (v0 & <- & H0).
+          rewrite Forall_forall in B. destruct (u_id v0 =? u_id u); [simpl in Qv; discriminate|auto].
+        * intro K. specialize (C K). unfold upd_unord. apply Forall_forall. intros v Hv. apply in_map_iff in Hv.
+          destruct Hv as (v0 & <- & H0). rewrite Forall_forall in C. destruct (u_id v0 =? u_id u); simpl; auto.
   Qed.
 End C10.
